@@ -21,6 +21,12 @@ NCPU = min(16, os.cpu_count() or 4)
 os.makedirs(WORK, exist_ok=True)
 
 
+def repo_paths(text):
+    """Harness manifests name the framework as /repo/...; VERIF_REPO redirects them (used to run the checks against
+    a patched scratch worktree without touching /repo)."""
+    return text if REPO == "/repo" else text.replace("/repo/", REPO.rstrip("/") + "/")
+
+
 def log(*a):
     print("[verif]", *a, file=sys.stderr, flush=True)
 
